@@ -269,6 +269,69 @@ fn pyth_cases(rng: &mut Rng, ncases: usize) {
   }
 }
 
+
+/// composition with the exchange model (C06): exchange-symmetric setups (degenerate type-0 / type-1) must give rate(0) = 0 on
+/// identical axes; for any setup the second array of the wrappers is the with_swapped_signal_idler twin's jsa_range
+fn twin_cases(rng: &mut Rng, ncases: usize) {
+  let mut list = setups();
+  list.push(("ktp_pp_type0_deg", json!({
+    "crystal": {"kind": "KTP", "pm_type": "e->ee", "phi_deg": 0, "theta_deg": 90, "length_um": 5000, "temperature_c": 30},
+    "pump": {"wavelength_nm": 775, "waist_um": 80, "bandwidth_nm": 0.8, "average_power_mw": 10},
+    "signal": {"wavelength_nm": 1550, "phi_deg": 0, "theta_deg": 0, "waist_um": 60, "waist_position_um": "auto"},
+    "idler": "auto", "periodic_poling": {"poling_period_um": "auto"}, "deff_pm_per_volt": 3.0})));
+  list.push(("lnb_pp_type0_deg", json!({
+    "crystal": {"kind": "LiNbO3_1", "pm_type": "e->ee", "phi_deg": 0, "theta_deg": 90, "length_um": 3000, "temperature_c": 40},
+    "pump": {"wavelength_nm": 532, "waist_um": 60, "bandwidth_nm": 0.3, "average_power_mw": 5},
+    "signal": {"wavelength_nm": 1064, "phi_deg": 0, "theta_deg": 0, "waist_um": 45, "waist_position_um": "auto"},
+    "idler": "auto", "periodic_poling": {"poling_period_um": "auto"}, "deff_pm_per_volt": 10.0})));
+  let integrator = Integrator::default();
+  for case in 0..ncases {
+    let (name, cfg) = &list[case % list.len()];
+    let spdc = match build_setup(cfg) {
+      Ok(s) => s,
+      Err(e) => {
+        emit(json!({"kind": "setup_skip", "setup": name, "why": e}));
+        continue;
+      }
+    };
+    let twin = spdc.clone().with_swapped_signal_idler();
+    let n = 2 + rng.below(7);
+    let ws = *(spdc.signal.frequency() / (RAD / S));
+    let wi = *(spdc.idler.frequency() / (RAD / S));
+    let wc = 0.5 * (ws + wi);
+    let d = rng.log_range(2e-4, 4e-3) * wc;
+    let symmetric_axes = (case / list.len()) % 3 != 2;
+    let (xs, ys) = if symmetric_axes { ((wc - d, wc + d, n), (wc - d, wc + d, n)) } else { ((ws - d, ws + d, n), (wi - 0.7 * d, wi + 1.1 * d, n)) };
+    let range = space(xs, ys);
+    let span = rng.log_range(0.3, 3.0) * std::f64::consts::PI / d;
+    let taus: Vec<f64> = vec![0.0, rng.range(-1.0, 1.0) * span];
+    let (s1, t1) = (spdc.clone(), taus.clone());
+    let series_setup = guarded(move || s1.hom_rate_series(t1.iter().map(|t| *t * S), range, integrator));
+    let fa = spdc.joint_spectrum(integrator).jsa_range(range);
+    let fb = twin.joint_spectrum(integrator).jsa_range(range);
+    let (f1, g1, t2) = (fa.clone(), fb.clone(), taus.clone());
+    let series_twin = guarded(move || hom_rate_series(range, &f1, &g1, t2.iter().map(|t| *t * S)));
+    // is the setup its own twin?  (same polarisation, angles, waists, waist positions for signal and idler)
+    let self_twin = twin == spdc;
+    let scale = fa.iter().map(|z| z.norm()).fold(0.0f64, f64::max);
+    let asym = if symmetric_axes {
+      let t = transpose(&fa, n);
+      fa.iter().zip(t.iter()).map(|(a, b)| (a - b).norm()).fold(0.0f64, f64::max) / scale.max(f64::MIN_POSITIVE)
+    } else {
+      f64::NAN
+    };
+    let ser = |r: Result<Vec<f64>, String>| match r {
+      Ok(v) => json!(fxs(&v)),
+      Err(p) => json!({ "panic": p }),
+    };
+    emit(json!({
+      "kind": "twin", "setup": name, "config": cfg, "n": n, "symmetric_axes": symmetric_axes, "self_twin": self_twin,
+      "xs": [fx(xs.0), fx(xs.1)], "ys": [fx(ys.0), fx(ys.1)], "taus": fxs(&taus),
+      "series_setup": ser(series_setup), "series_twin": ser(series_twin), "asymmetry": fx(asym), "jsi_norm": fx(jsi_norm(&fa)),
+    }));
+  }
+}
+
 fn setup_cases(rng: &mut Rng, ncases: usize) {
   let list = setups();
   for case in 0..ncases {
@@ -342,4 +405,5 @@ pub fn run(args: &[String]) {
   pyth_cases(&mut rng, arg_u64(args, 5, 36) as usize);
   gaussian_cases(&mut rng, ngauss);
   setup_cases(&mut rng, nsetup);
+  twin_cases(&mut rng, arg_u64(args, 6, 12) as usize);
 }
